@@ -1,7 +1,10 @@
 SPEC = {
     'module': 'EV.Props.C15',
     'theorems': ['EV.Index.C15_keep', 'EV.Index.C15_window', 'EV.Index.C15_prune', 'EV.Index.C15_refuse',
-                 'EV.Index.C15_counterexample_falling_daemon_height'],
+                 'EV.Index.C15_counterexample_falling_daemon_height',
+                 'EV.Index.C15run_kept', 'EV.Index.C15run_window', 'EV.Index.C15run_window_from',
+                 'EV.Index.C03run_backup_refused', 'EV.Index.C03run_reopen', 'EV.Index.C03run_reopen_clean',
+                 'EV.Index.C15run_counterexample_falling_daemon_height'],
     'claims': {'violation_tags': ['window']},
     'suites': ['index', 'sync'],
     'design_ref': 'DESIGN.md §6 C15',
@@ -9,7 +12,7 @@ SPEC = {
         'daemon heights seen while indexing a block do not exceed the height at which the server later catches up (D_b <= H); without it the window has holes (finding F10, machine-checked counterexample)',
         'undo rows are written by the UTXO batch of the flush that follows the block (model flushDbs; tied by suite index)',
     ],
-    'level_text': 'proof: the retention rule of advance_block, the window arithmetic for every reorg limit and daemon-height trajectory satisfying D_b <= H, the exact set of undo rows after every start-up (prune below the window, keep inside it), and refusal with ChainError when a row is absent are Lean theorems about the concrete model; undo rows are compared with the real DB after every operation.',
+    'level_text': 'proof: the retention rule of advance_block, the window arithmetic for every reorg limit and daemon-height trajectory satisfying D_b <= H, the exact set of undo rows after every start-up (prune below the window, keep inside it), and refusal with ChainError when a row is absent are Lean theorems about the concrete model; undo rows are compared with the real DB after every operation.  Over whole runs (C15run_window): after ANY valid back-out-free run from the empty index (advances with daemon heights <= H, flushes of either kind, restarts anywhere, clean or losing unflushed blocks) that ends caught up at height H, a full flush followed by k consecutive back-outs succeeds for every k <= reorg limit (k <= H) and leaves an index of the first H+1-k blocks; the undo information found for a retained height is proved to be exactly the block\'s.',
     'level_note': 'server-level glue (fetch loop, flush policy under cache pressure, on_caught_up, reorg_chain, clean restarts) is not modelled in Lean: it is judged by suite sync on the real processing task against the Lean specification of the chain at every moment clients are told a height; trusted: Lean kernel + 3 axioms; model/code tie by suite index (reorg limits 1,2,3,4,200; daemon-height modes far/track/jump); LevelDB key order = numeric order of big-endian heights',
     'technique': 'Lean 4 theorems about the concrete index model + differential correspondence',
 }
